@@ -25,8 +25,9 @@ RULE = ("cases: (i) direct: SnowfakeryApplication/IdManager driven with r genera
         "criterion None / reps k / (table, N), fresh or restored from last_used_ids (thorough: exhaustive over "
         "last0 in {fresh,0..6} x N in 1..8 x r in {0..3}^<=5, plus random larger); (ii) e2e sessions of 1-3 runs "
         "chained by continuation files through generate_data / generate (a new application object per run, or one "
-        "object reused for all runs), iterations delimited by marker rows; unknown targets include nicknames, '' "
-        "and a table only an earlier recipe had. "
+        "object reused for all runs), iterations delimited by marker rows; unknown targets include near misses of "
+        "real table names and nicknames (case, whitespace, prefix, suffix, extension), nicknames, '' and a table "
+        "only an earlier recipe had. "
         "Compared with the model: outcome class, number of complete iterations, rows of the target table. "
         "non-trivial: a (table, N) or reps criterion whose run takes >= 2 iterations, or is continued (direct: from a state with rows), or ends "
         "in an error; distinct by case hash")
@@ -105,6 +106,34 @@ def gen_direct_exhaustive():
     return out
 
 
+def _tname(case):
+    """name of the e2e recipe's target table (rows shown as 'T' in the observed row string)"""
+    return case.get("tname", TABLE)
+
+
+NICKNAMES = ["mk", "tn", "en"]
+
+
+def near_miss_names(tn):
+    """names that are NOT tables of the recipe but resemble one: case variants of table names and
+    nicknames, surrounding / inner whitespace, prefixes, suffixes, extensions"""
+    out = []
+    for base in (tn, "M", "E"):
+        out += [base.lower(), base.upper(), base.swapcase(), base.capitalize(),
+                " " + base, base + " ", "  " + base + " ", base + "s", base + "_", "_" + base, base * 2]
+        if len(base) > 1:
+            out += [base[:-1], base[1:], base[:len(base) // 2], base[:len(base) // 2] + " " + base[len(base) // 2:]]
+    for nick in NICKNAMES:
+        out += [nick, nick.upper(), nick.capitalize(), nick + " "]
+    real = {tn, "M", "E", "P", "X", COUNT_REPS}
+    seen, res = set(), []
+    for n in out:
+        if n not in real and n not in seen:
+            seen.add(n)
+            res.append(n)
+    return res
+
+
 def _run(crit, cap, form="tuple"):
     return {"crit": crit, "cap": cap, "form": form}
 
@@ -129,9 +158,17 @@ def gen_e2e(rng):
         pz = rng.choice([0.0, 0.0, 0.15, 0.35])
         seq = [0 if rng.random() < pz else rng.randint(1, rng.choice([1, 2, 4])) for _ in range(rng.randint(1, 6))]
     api = rng.choice(["generate_data", "generate"])
+    tn = rng.choice([TABLE, TABLE, "Tab", "LineItem", "Line_Item", "tEAM", "order"])
+    case = gen_e2e_named(rng, shape, seq, api, tn)
+    if tn != TABLE:
+        case["tname"] = tn
+    return case
+
+
+def gen_e2e_named(rng, shape, seq, api, tn):
     if rng.random() < 0.22:
         # one SnowfakeryApplication object (one criterion) drives the run and its continuations
-        crit = [TABLE, rng.choice([1, 2, 3, 4, 5, 6, 8])]
+        crit = [tn, rng.choice([1, 2, 3, 4, 5, 6, 8])]
         nruns = rng.choice([2, 2, 3])
         return {"kind": "e2e", "shape": shape, "seq": seq, "api": api, "reuse": True,
                 "runs": [_run(crit, _cap_for(crit)) for _ in range(nruns)]}
@@ -148,22 +185,23 @@ def gen_e2e(rng):
             elif u < 0.8:
                 crit = None
             else:
-                crit = [TABLE, rng.randint(1, 6)]
+                crit = [tn, rng.randint(1, 6)]
         else:
             if old_table and i > 0 and u < 0.35:
                 crit = [rng.choice(["X", "X", "xn"]), rng.randint(1, 3)]
-            elif u < 0.70:
-                crit = [TABLE, rng.choice([1, 2, 3, 4, 5, 6, 7, 9, 12])]
-            elif u < 0.82:
+            elif u < 0.64:
+                crit = [tn, rng.choice([1, 2, 3, 4, 5, 6, 7, 9, 12])]
+            elif u < 0.76:
                 crit = [COUNT_REPS, rng.choice([1, 2, 3, 4])]
-            elif u < 0.88:
+            elif u < 0.81:
                 crit = None
             else:
                 # names the recipe cannot create: misspellings, the empty name, NICKNAMES of the
                 # recipe's templates, and (continued runs) a table only the first run's recipe had
-                names = ["Q", "t", "T ", "Tt", "", "mk", "mk", "tn", "en"]
-                if old_table and i > 0:
-                    names += ["X", "X", "xn"]
+                if rng.random() < 0.25:
+                    names = ["Q", "", "baz"] + (["X", "X", "xn", "x"] if old_table and i > 0 else [])
+                else:
+                    names = near_miss_names(tn)
                 crit = [rng.choice(names), rng.randint(1, 3)]
         form = rng.choice(["tuple", "swapped"]) if (api == "generate_data" and crit is not None) else "tuple"
         runs.append(_run(crit, _cap_for(crit), form))
@@ -199,6 +237,14 @@ def gen_e2e_fixed():
                 "runs": [_run([TABLE, 1], 4), _run(["tn", 2], 5)]})
     out.append({"kind": "e2e", "shape": "const", "seq": [2], "api": "generate_data", "old_table": True,
                 "runs": [_run([TABLE, 1], 4), _run(["X", 1], 4)]})
+    # near misses of real table names and nicknames (case, whitespace, prefix, suffix): always present
+    for tn, shape in (("LineItem", "friend"), (TABLE, "top"), ("order", "const")):
+        for k, name in enumerate(near_miss_names(tn)):
+            c = {"kind": "e2e", "shape": shape, "seq": [2], "api": ("generate_data", "generate")[k % 2],
+                 "runs": ([_run([name, 1 + k % 3], 5)] if k % 3 else [_run(None, 3), _run([name, 1 + k % 3], 5)])}
+            if tn != TABLE:
+                c["tname"] = tn
+            out.append(c)
     # one application object reused for a run and its continuations: counted from each run's start
     for api in ("generate_data", "generate"):
         out.append({"kind": "e2e", "shape": "const", "seq": [2], "api": api, "reuse": True,
@@ -241,19 +287,20 @@ def rows_of_iteration(case, g):
 def recipe_text(case, with_old_table=False):
     """Every template carries a nickname (mk, tn, pn, en[, xn]): a nickname is not a table."""
     shape, seq = case["shape"], case["seq"]
+    T = _tname(case)
     expr = "${{ %s[(M.id - 1) %% %d] }}" % (str(list(seq)), len(seq))
     if shape == "top":
-        body = f"- object: T\n  nickname: tn\n  count: {expr}\n"
+        body = f"- object: {T}\n  nickname: tn\n  count: {expr}\n"
     elif shape == "const":
-        body = f"- object: T\n  nickname: tn\n  count: {seq[0]}\n"
+        body = f"- object: {T}\n  nickname: tn\n  count: {seq[0]}\n"
     elif shape == "just_once":
-        body = f"- object: T\n  nickname: tn\n  just_once: true\n  count: {seq[0]}\n"
+        body = f"- object: {T}\n  nickname: tn\n  just_once: true\n  count: {seq[0]}\n"
     elif shape == "friend":
-        body = f"- object: P\n  nickname: pn\n  friends:\n    - object: T\n      nickname: tn\n      count: {seq[0]}\n"
+        body = f"- object: P\n  nickname: pn\n  friends:\n    - object: {T}\n      nickname: tn\n      count: {seq[0]}\n"
     elif shape == "field":
         # one T row through a field of P, plus a varying number at top level
-        body = (f"- object: P\n  nickname: pn\n  fields:\n    t:\n      - object: T\n"
-                f"- object: T\n  nickname: tn\n  count: {expr}\n")
+        body = (f"- object: P\n  nickname: pn\n  fields:\n    t:\n      - object: {T}\n"
+                f"- object: {T}\n  nickname: tn\n  count: {expr}\n")
     else:
         raise ValueError(shape)
     if with_old_table:
@@ -389,7 +436,8 @@ def _run_e2e(case):
             raise
         except BaseException as e:
             outcome = C.canon_exc(e)
-        runs_obs.append({"outcome": outcome, "rows": "".join(t[0] if t in ("M", "T", "E", "P", "X") else "?" for t in rows)})
+        letters = {"M": "M", _tname(case): "T", "E": "E", "P": "P", "X": "X"}
+        runs_obs.append({"outcome": outcome, "rows": "".join(letters.get(t, "?") for t in rows)})
         if outcome != "ok":
             break
         cont_text = new_cont.getvalue()
@@ -455,7 +503,7 @@ def coq_case(case, obs):
             exp.append(_coutcome(["exhausted", n]))
         else:
             exp.append(_coutcome(["failed", n, ro["outcome"]]))
-    tables = C.clist(C.cstr(t) for t in (["M", "T", "E"] + (["P"] if case["shape"] in ("friend", "field") else [])))
+    tables = C.clist(C.cstr(t) for t in (["M", _tname(case), "E"] + (["P"] if case["shape"] in ("friend", "field") else [])))
     if case.get("reuse"):
         caps = C.clist(C.cnat(r["cap"]) for r in case["runs"])
         return (f"CChainReuse {tables} {C.clist(C.cz(r) for r in _session_rs(case))} "
@@ -535,7 +583,7 @@ def _violations(case, obs):
         crit = case["runs"][0]["crit"] if case.get("reuse") else run["crit"]
         counts, whole = parse_rows(ro["rows"])
         oc = ro["outcome"]
-        known_tables = {"M", "T", "E"} | ({"P"} if case["shape"] in ("friend", "field") else set()) \
+        known_tables = {"M", _tname(case), "E"} | ({"P"} if case["shape"] in ("friend", "field") else set()) \
             | ({"X"} if case.get("old_table") and i == 0 else set())
         if crit and crit[0] != COUNT_REPS and crit[0] not in known_tables:
             if oc != "DGE" or ro["rows"]:
@@ -597,6 +645,28 @@ def nontrivial(case, obs):
     return len(runs) >= 2 or any(r["rows"].count("E") >= 2 or r["outcome"] != "ok" for r in runs)
 
 
+def _unknown_kind(name, tn):
+    real = [tn, "M", "E"]
+    nicks = NICKNAMES + ["pn", "xn"]
+    if name in nicks:
+        return "nickname"
+    if name.lower() in nicks or name.strip().lower() in nicks:
+        return "nickname_variant"
+    if name in ("X", "x"):
+        return "table_of_earlier_recipe"
+    if name == "":
+        return "empty"
+    if any(name != r and name.lower() == r.lower() for r in real):
+        return "case_variant"
+    if any(name != r and name.strip() == r for r in real) or any(" " in name and name.replace(" ", "") == r for r in real):
+        return "whitespace_variant"
+    if any(r.startswith(name) or r.endswith(name) for r in real):
+        return "prefix_or_suffix"
+    if any(name.startswith(r) or name.endswith(r) for r in real):
+        return "extension"
+    return "other"
+
+
 def stats(cases, obss):
     kinds = Counter(c["kind"] for c in cases)
     crit = Counter()
@@ -627,12 +697,8 @@ def stats(cases, obss):
             feats["first_recipe_has_extra_table"] += 1 if c.get("old_table") else 0
             for r in c["runs"]:
                 k = r["crit"]
-                if k and k[0] in ("mk", "tn", "en", "pn", "xn"):
-                    feats["target_is_nickname"] += 1
-                elif k and k[0] == "X":
-                    feats["target_is_table_of_earlier_recipe"] += 1
-                elif k and k[0] not in (COUNT_REPS, TABLE):
-                    feats["target_other_unknown"] += 1
+                if k and k[0] not in (COUNT_REPS, _tname(c)):
+                    feats["unknown_target:" + _unknown_kind(k[0], _tname(c))] += 1
             for r, ro in zip(c["runs"], o["runs"]):
                 k = r["crit"]
                 crit["none" if k is None else "reps" if k[0] == COUNT_REPS else "target"] += 1
